@@ -29,9 +29,13 @@ REQUIRED = ['quota_textbook_hare', 'quota_textbook_hagenbach_bischoff', 'quota_t
             'quota_textbook_hagenbach_bischoff_ceil', 'quota_round_half_up', 'quota_textbook_hare_rounded',
             'quota_textbook_hagenbach_bischoff_rounded', 'quota_droop_pos', 'quota_droop_least',
             'qd_whole_quotas', 'wholeSel_get', 'qd_no_overaward', 'qd_policy_error', 'qd_policy_ignore',
-            'qd_policy_subtract_total',
+            'qd_policy_subtract_total', 'qd_subtract_step', 'qd_subtract_empty',
             'lr_whole_then_remainders', 'lr_floor_plus_01', 'lr_extra_only_eligible', 'lr_largest_remainders',
-            'lr_tie_shape', 'lr_total']
+            'lr_tie_shape', 'lr_total', 'lr_total_exact', 'lr_total_hare', 'lr_total_hagenbach_bischoff',
+            'lr_total_imperiali', 'hare_quota_rule', 'lr_plain_of_quota_gt', 'lr_plain_droop',
+            'qd_fuel_suffices', 'lr_fuel_suffices',
+            'qd_cap_partial', 'lr_cap_partial', 'qd_cap_witness', 'qd_cap_negative_witness', 'lr_cap_witness',
+            'qd_house_witness', 'qd_house_zero_division_witness', 'qd_policy_error_unnamed_witness']
 REQUIRED_COUNTERS = ['policy_error', 'policy_ignore', 'policy_subtract', 'subtract_tie', 'cap_binds', 'cap_with_prev',
                      'cap_remainder_only', 'remainder_tie', 'accept_equal_edge', 'overaward_imperiali',
                      'overaward_hagenbach_bischoff', 'whole_exceeds_house', 'prev_nonzero', 'prev_other_party',
@@ -194,7 +198,7 @@ def _cap_clauses(sp, res):
                 out.append(('cap_exceeded', f'party {c}: {got}+{sp.p[c]} > cap {sp.cap[c]}'))
             elif sp.w[c] >= sp.cap[c] and got + sp.p[c] != sp.cap[c] and c not in tie_members:
                 out.append(('capped_not_at_cap', f'party {c}: whole quotas {sp.w[c]} reach the cap {sp.cap[c]} but it holds {got}+{sp.p[c]}'))
-        if c not in sp.explicit_binds and got < sp.base[c] and c not in tie_members and sp.T <= sp.n:
+        if c not in sp.explicit_binds and got < sp.base[c] and c not in tie_members:
             out.append(('below_whole_quotas', f'party {c}: {got} < whole quotas {sp.base[c]}'))
     return out
 
@@ -213,14 +217,35 @@ def oracle(case, obs):
     out = []
     if sp.explicit_binds:
         # a cap binds on the whole quotas: the property fixes caps, floors and the total, not the redistribution
+        INFTY = 10 ** 40
+        cb = {c: max(min(sp.w[c], sp.cap.get(c, INFTY)) - sp.p[c], 0) for c in sp.v}     # whole quotas held at the cap
+        Tc = sum(cb.values()) + sp.sum_prev
+        if Tc > sp.n:
+            # even the capped whole quotas exceed the house: the over-award policy applies to them
+            if sp.policy == 'error':
+                if is_err and obs.get('err') != 'VotingSystemError':
+                    out.append(('raises:' + str(obs.get('err')), 'VotingSystemError expected'))
+                elif not is_err:
+                    out.append(('policy_error', f'VotingSystemError expected, got {obs}'))
+                return out
+            if is_err:
+                if not (sp.policy == 'subtract' and Tc - sp.n > sum(cb.values())):
+                    out.append(('raises:' + str(obs.get('err')), 'no error is specified here'))
+                return out
+            res = _obs_dict(obs)
+            if sp.policy == 'ignore':
+                if _nz(res) != _nz(cb):
+                    out.append(('policy_ignore', f'expected the capped whole quotas {_nz(cb)}, got {_nz(res)}'))
+                return out
+            out += [cl for cl in _cap_clauses(sp, res) if cl[0] in ('negative_award', 'cap_exceeded')]
+            if sum(res.values()) + sp.sum_prev != sp.n:
+                out.append(('subtract_total', f'total {sum(res.values()) + sp.sum_prev} with previous gains, {sp.n} seats'))
+            return out
         if is_err:
-            exp_err = (sp.policy == 'error')
-            if not (exp_err and obs.get('err') == 'VotingSystemError'):
-                out.append(('raises:' + str(obs.get('err')), 'no error is specified for caps'))
+            out.append(('raises:' + str(obs.get('err')), 'no error is specified for caps'))
             return out
         res = _obs_dict(obs)
         out += _cap_clauses(sp, res)
-        INFTY = 10 ** 40
         held = {c: sp.p[c] if sp.p[c] > sp.cap.get(c, INFTY) else min(max(sp.w[c], sp.p[c]), sp.cap.get(c, INFTY))
                 for c in sp.v}
         total_now = sum(res.values()) + sp.sum_prev
@@ -628,7 +653,10 @@ NOT_VERIFIED = ['dict insertion order is the protocol order (CPython dict semant
                 'a Tie whose members are Tie objects is not representable in the model (answers Model:NestedTie; never observed)',
                 'int / Fraction arithmetic of CPython is exact rational arithmetic']
 EXHAUSTIVE = {'thorough': False}
-UNPROVED = []
+UNPROVED = ['VL.C02.qd_cap (caps respected by QuotaDistributor for ALL inputs: false of the current code, see qd_cap_witness / finding C02-a)',
+            'VL.C02.lr_cap (caps respected by LargestRemainder for ALL inputs: false, see lr_cap_witness / finding C02-b)',
+            'VL.C02.lr_cap_total (total = n under binding caps: false, finding C02-b)',
+            'VL.C02.qd_policy_honoured (policies honoured also when a party\'s whole quotas exceed the house: false, see qd_house_witness / finding C02-d)']
 TECHNIQUE = ('Lean 4 proofs about an executable model of QuotaDistributor / LargestRemainder (unbounded) + translated quota '
              'functions + differential correspondence with votelib')
 LEVEL_TEXT = ''
